@@ -28,7 +28,7 @@ def match_known(known, prop, r):
     for k in known:
         if k.get("status") != "known":
             continue
-        if k["property"] != prop:
+        if k["property"] != prop and prop not in k.get("also", []):
             continue
         if k["obligation"] != r["name"]:
             continue
